@@ -499,10 +499,18 @@ func (i *Interpreter) ExecuteRoute(route *Route, request *Request) (*Response, e
 	// Create a new environment for the route
 	routeEnv := NewChildEnvironment(i.globalEnv)
 
-	// Extract path parameters
-	params, err := extractPathParams(route.Path, request.Path)
-	if err != nil {
-		return nil, err
+	// Path parameters. A dispatcher that has matched the route hands over the
+	// bindings it made (request.Params): those are the request's segments.
+	// Re-deriving them from the path string is only for callers that pass a
+	// bare path - a decoded segment may itself contain "?" (GET /users/a%3Fb),
+	// which the string form cannot tell from the start of the query.
+	params := request.Params
+	var err error
+	if params == nil {
+		params, err = extractPathParams(route.Path, request.Path)
+		if err != nil {
+			return nil, err
+		}
 	}
 
 	// Add path parameters to environment
